@@ -91,6 +91,25 @@ func scIsolation(r *Run) {
 	}
 	var wg sync.WaitGroup
 	lastHuge := "none"
+	// an unreliable tube delivers one empty message when its peer end closes (the FIN surfaces that way); any
+	// other empty message is a message nobody wrote
+	finsDelivered := map[string]int{} // "mux/id" of the RECEIVING side -> unreliable FIN frames the network delivered so far
+	emptyReads := map[string]int{}    // "mux/id" of the READING side
+	stopping := false
+	if !mp.Stack {
+		n.OnDeliver = func(d *Dgram, ep *Endpoint) {
+			b := d.Data
+			if len(b) >= 12 && b[1]&(1<<2) == 0 && b[1]&3 == 0 && b[1]&(1<<4) != 0 { // unreliable, not an initiate frame, FIN
+				side := "A"
+				if ep == mp.EB {
+					side = "B"
+				}
+				mu.Lock()
+				finsDelivered[fmt.Sprintf("%s/%d", side, b[0])]++
+				mu.Unlock()
+			}
+		}
+	}
 
 	classify := func(in *tubeInst, src *tubeInst) string {
 		switch {
@@ -175,7 +194,17 @@ func scIsolation(r *Run) {
 				return
 			}
 			if k == 0 {
-				continue // the FIN of an unreliable tube surfaces as an empty message
+				// the FIN of an unreliable tube surfaces as an empty message
+				mu.Lock()
+				emptyReads[fmt.Sprintf("%s/%d", in.mux, in.id)]++
+				got, allowed, st := emptyReads[fmt.Sprintf("%s/%d", in.mux, in.id)], finsDelivered[fmt.Sprintf("%s/%d", in.mux, in.id)], stopping || mp.Stack
+				mu.Unlock()
+				r.Obligation(1)
+				if got > allowed && !st {
+					r.Violate("C09/empty-message-nobody-wrote", "unrel%d on %s read its empty message no. %d; the network has delivered only %d end-of-tube (FIN) frame(s) for unreliable tubes with that identifier and nobody writes empty messages", in.id, in.mux, got, allowed)
+					return
+				}
+				continue
 			}
 			if k < cellLen || string(buf[:4]) != "CELL" {
 				r.Violate("C09/fragment", "unrel%d on %s: read a %d-byte message that is not a whole written message", in.id, in.mux, k)
@@ -351,10 +380,16 @@ func scIsolation(r *Run) {
 		} else {
 			r.Probe("openers-still-busy-after-30-minutes")
 		}
+		mu.Lock()
+		stopping = true
+		mu.Unlock()
 		mp.StopBoth(r, 2*time.Minute)
 		return
 	}
 	time.Sleep(c.LongDelay + c.ReplayMax + 3*time.Second)
+	mu.Lock()
+	stopping = true
+	mu.Unlock()
 	mp.StopBoth(r, 2*time.Minute)
 	wd := make(chan struct{})
 	r.Go(func() { wg.Wait(); close(wd) })
